@@ -57,8 +57,14 @@ Definition sub_matches (exact : bool) (sc : list Q) (nr : string * region) (o : 
   qlist_close exact sc (pmax (snd nr)) (snd (snd (fst o))) &&
   strlist_eqb (dims (snd nr)) (fst (snd o)) && strlist_eqb (units (snd nr)) (snd (snd o)).
 
+(* name -> box maps are compared: the order of a dictionary is not part of the property *)
 Definition subs_match (exact : bool) (sc : list Q) (l : list (string * region)) (o : list sub_obs) : bool :=
-  forallb2 (sub_matches exact sc) l o.
+  (length l =? length o)%nat &&
+  forallb (fun nr : string * region =>
+             match find (fun ob : sub_obs => String.eqb (fst nr) (fst (fst ob))) o with
+             | Some ob => sub_matches exact sc nr ob
+             | None => false
+             end) l.
 
 Definition mesh_matches (exact : bool) (m : mesh) (o : mesh_obs) : bool :=
   let sc := scales m in
